@@ -669,8 +669,18 @@ def report(chk: Check, items, verdicts):
 
 
 # ================================================================================================ entry points
-def run(chk: Check):
+def setup_env():
+    """library import (hooks on, no MPI) and single-threaded pyscf: the molecules are tiny, and OpenMP teams on
+    2x2..11x11 matrices cost two orders of magnitude more than the arithmetic"""
     repo_setup()
+    from pyscf import lib
+    lib.num_threads(1)
+    with quiet():
+        from ad_afqmc import mpi_jax  # noqa: F401  (runs config.setup_comm() at import; use_mpi is already False)
+
+
+def run(chk: Check):
+    setup_env()
     chk.rule = ("case = one hand-over pyscf object -> prep_afqmc -> files -> _prep_afqmc(options) [-> init_prop_data, FCI of the "
                 "written Hamiltonian, mixed energy at the reference determinant]; molecules: seeded random geometries of "
                 "H2/H3/H4 chain/H4 ring/H6/LiH/OH, families rhf, rhf-frozen, rohf, rohf-frozen, uhf, df, custom-basis "
@@ -740,7 +750,7 @@ def run(chk: Check):
 
 def replay(chk: Check, case):
     """re-run one recorded case (replay/C16-*.json) through the real pipeline and the judge"""
-    repo_setup()
+    setup_env()
     spec = case["case"]["spec"]
     if spec.get("slice") == "lattice":
         L = dict(spec)
